@@ -134,6 +134,8 @@ def build_script(path, setup, callstmts, expr):
             expr = "<-__c%d" % i
         elif kind == "cclone":
             stmts, expr = [], "__cclone(" + fn_text("func()", stmts, expr, kind) + ")"
+        elif kind == "clonecall":
+            stmts, expr = [], "__clonecall(" + fn_text("func()", stmts, expr, kind) + ")"
         elif kind == "import_fn":
             modules["m%d" % i] = fn_text("func f()", stmts, expr, kind)
             stmts, expr = ["import m%d" % i], "m%d.f()" % i
@@ -158,7 +160,7 @@ def executable(path):
             imported_in_clone = imported_in_clone or cloned
         elif k == "cclone" and imported_in_clone:
             return False
-        if k in ("go", "spawn", "clone", "cclone"):
+        if k in ("go", "spawn", "clone", "cclone", "clonecall"):
             cloned = True
     return True
 
@@ -179,6 +181,8 @@ def make_requests(members, paths_all, paths_sample, sources):
                     continue  # exit(3) raises an error try() does not catch: the go thread would never answer
                 script, modules, hostclone = build_script(p, setup, cs, expr)
                 for s in sources + (["ctxwarm", "withoswarm"] if len(p) <= 1 else []):
+                    if "clonecall" in p and s not in ("withos", "withoswarm"):
+                        continue  # a context of the host callback's own carries no OS: only WithOS reaches the clone
                     reqs.append({"id": len(reqs), "fn": fn, "v": v, "path": list(p), "src": s, "script": script,
                                  "modules": modules, "hostclone": hostclone})
     return reqs, no_recipe
@@ -287,7 +291,7 @@ def run(cx):
     m_states = r.distinct
     nestings = sorted(set(tuple(json.loads(s)) for s in r.tuples("NEST")), key=lambda p: (len(p), p))
     kinds_seen = set(k for p in nestings for k in p)
-    if () not in nestings or kinds_seen != {"go", "spawn", "clone", "cclone", "import_body", "import_fn"}:
+    if () not in nestings or kinds_seen != {"go", "spawn", "clone", "cclone", "clonecall", "import_body", "import_fn"}:
         raise vlib.Inconclusive("OSMed exported %d nestings over the context kinds %s" % (len(nestings), sorted(kinds_seen)))
     # non-vacuity: the design without the two mechanisms of the code must violate Mediated
     for (cc, ii) in (("FALSE", "TRUE"), ("TRUE", "FALSE")):
@@ -364,7 +368,7 @@ def run(cx):
             evs = res["events"]
             if any(e["e"] == "os" for e in evs):
                 reached.add((x["fn"], tuple(x["path"])))
-            need = sum(1 for k in x["path"] if k in ("go", "spawn", "clone", "cclone"))
+            need = sum(1 for k in x["path"] if k in ("go", "spawn", "clone", "cclone", "clonecall"))
             if res["status"] in ("ok", "err") and sum(1 for e in evs if e["e"] == "vmclone") != need:
                 clone_mismatch += 1
 
